@@ -716,6 +716,27 @@ func (env *SpecEnv) call(n *ECall) SVal {
 }
 
 func (env *SpecEnv) typeByName(s string) types.Type {
+	// composite type expressions: *T, []T, map[K]V (for dyn/istype on decoded values)
+	if strings.HasPrefix(s, "*") && (strings.HasPrefix(s[1:], "map[") || strings.HasPrefix(s[1:], "[]") || strings.HasPrefix(s[1:], "*")) {
+		return types.NewPointer(env.typeByName(s[1:]))
+	}
+	if strings.HasPrefix(s, "[]") {
+		return types.NewSlice(env.typeByName(s[2:]))
+	}
+	if strings.HasPrefix(s, "map[") {
+		depth, i := 0, 3
+		for ; i < len(s); i++ {
+			if s[i] == '[' {
+				depth++
+			} else if s[i] == ']' {
+				depth--
+				if depth == 0 {
+					break
+				}
+			}
+		}
+		return types.NewMap(env.typeByName(s[4:i]), env.typeByName(s[i+1:]))
+	}
 	ptr := strings.HasPrefix(s, "*")
 	s = strings.TrimPrefix(s, "*")
 	i := strings.LastIndex(s, ".")
